@@ -56,7 +56,7 @@ def consts(max_calls, max_ticks, transports=("pipe", "http"), ver=False, full_pa
     return {"MaxCalls": max_calls, "MaxTicks": max_ticks, "MaxHooks": max_hooks, "Behaviours": set(BEH),
             "Transports": set(transports), "VerMismatch": ver, "FullPairs": full_pairs,
             "Dev_DescribeUnhooked": True, "Dev_HttpCancelUnhooked": True,
-            "FixHttpTurnError": fix, "FixHttpErrorUnwrapped": fix}
+            "FixHttpTurnError": fix, "FixHttpErrorUnwrapped": fix, "FixDropEnds": fix}
 
 
 def model_check(ctx: Ctx, wd, name: str, cs: dict, pair_hooks: list | None, emit: bool = True, mod: str = "MC_HookLife",
@@ -81,7 +81,11 @@ def model_check(ctx: Ctx, wd, name: str, cs: dict, pair_hooks: list | None, emit
     if not emit:
         return None, []
     methods = next(j["methods"] for j in r.json_lines if "methods" in j)
-    return methods, [j for j in r.json_lines if "script" in j]
+    hs: dict = {}
+    for j in r.json_lines:      # (a vanished client has two admitted endings in the model: one history, first ending kept)
+        if "script" in j:
+            hs.setdefault(json.dumps([j["tr"], j["hooks"], j["script"]], sort_keys=True), j)
+    return methods, list(hs.values())
 
 
 class Worlds:
@@ -129,7 +133,7 @@ def replay(worlds: Worlds, ver: bool, tr: str, hooks: list, script: list, xs: li
         obsd.append("SERVER-DIED:" + conn.died[0][:80])
     if not closed:
         obsd.append("SERVE-LOOP-DID-NOT-END")
-    return {"hist": res["hist"], "obsd": obsd, "strace": [{k: e[k] for k in EVKEYS} for e in evs if e["ev"] != "alog"],
+    return {"hist": res["hist"], "obsd": obsd, "dropped": bool(res.get("dropped")), "strace": [{k: e[k] for k in EVKEYS} for e in evs if e["ev"] != "alog"],
             "hung": hung, "died": list(conn.died), "errtexts": [e.get("errtext") for e in evs if e["ev"] == "end"]}
 
 
@@ -207,6 +211,14 @@ def _run(ctx: Ctx, wd, quick: bool, t0: float, pool, nproc: int) -> None:
     bth = threading.Thread(target=background, daemon=True)
     bth.start()
 
+    # over stateless HTTP a vanishing client sends nothing, exactly like close(): quick replays those histories on the
+    # socket family only (and not at all in the version-mismatch world, where nothing is ever dispatched)
+    def drops(h) -> bool:
+        return any(c["ops"] and c["ops"][-1] == "d" for c in h["script"])
+
+    if quick:
+        one = [h for h in one if not (h["tr"] == "http" and drops(h))]
+        ver1 = [h for h in ver1 if not drops(h)]
     for hs in (one, ver1, three):
         hs.sort(key=lambda h: json.dumps([h["tr"], h["hooks"], h["script"]], sort_keys=True))   # TLC's order varies
     # two-call histories: the MaxCalls=2 script space is CallDescs x CallDescs; a seeded sample of it is composed here
@@ -214,9 +226,10 @@ def _run(ctx: Ctx, wd, quick: bool, t0: float, pool, nproc: int) -> None:
     descs = sorted({json.dumps(h["script"][0], sort_keys=True) for h in one})
     n_pairs = 300 if quick else 5000
     two = []
+    first = [d for d in descs if not d.endswith('"d"]}')]     # nothing follows a vanished client on its connection
     for _ in range(n_pairs):
         two.append({"tr": ctx.rng.choice(["pipe", "http"]), "hooks": ctx.rng.choice(pair_hooks),
-                    "script": [json.loads(ctx.rng.choice(descs)), json.loads(ctx.rng.choice(descs))],
+                    "script": [json.loads(ctx.rng.choice(first)), json.loads(ctx.rng.choice(descs))],
                     "hist": None, "strace": None})
     ctx.exhaustive = True
     ctx.rule = ("case = one call history (script of 1-2 calls with client exit points, transport, hook configuration), "
@@ -252,7 +265,8 @@ def _run(ctx: Ctx, wd, quick: bool, t0: float, pool, nproc: int) -> None:
         real, base = results[ji]
         ctx.case([ver, h["tr"], h["hooks"], h["script"]])
         traces.append({"tr": h["tr"], "hooks": h["hooks"], "script": h["script"], "events": real["hist"],
-                       "strace": real["strace"], "obsd": real["obsd"], "based": base["obsd"]})
+                       "strace": real["strace"], "obsd": real["obsd"], "based": base["obsd"],
+                       "dropped": real["dropped"]})
         metas.append((ver, h, real, base))
     ctx.extra["real_code_phase_s"] = round(time.time() - t1, 1)
     for i in range(0, len(jobs), max(1, len(jobs) // 5)):
@@ -316,10 +330,10 @@ def _run(ctx: Ctx, wd, quick: bool, t0: float, pool, nproc: int) -> None:
                     if len(bad) == 1:
                         ctx.drift.append({"server_trace_differs": True, **det})
                     continue
-                sig = {"tr": h["tr"], "hooks": "+".join(h["hooks"]) or "none", "m": meth or h["script"][0]["m"],
-                       "world_ver_mismatch": ver}
+                sig = {"tr": h["tr"], "hooks": "+".join(h["hooks"]) or "none", "m": meth or h["script"][-1]["m"],
+                       "world_ver_mismatch": ver, "exit": "".join(h["script"][-1]["ops"])}
                 if name in ("ErrorIffFailed", "ErrorIsTheException"):
-                    sig["hooks"] = "any"          # the reported error does not depend on the hook configuration
+                    sig["hooks"] = sig["exit"] = "any"   # the reported error depends on neither hooks nor client exit
                 ctx.violation(name, sig, det)
     ctx.extra["histories_replayed"] = len(jobs)
     ctx.extra["histories_accepted_by_model"] = n_acc
